@@ -1087,6 +1087,10 @@ class SizeInterp:
                     self.record_rewrite(n, old[1], v[1], s2)
                 if v[0] == "expr":
                     if old is not None and old[0] == "expr" and lhs.get("k") == "Deref":
+                        # what was assumed about the input so far must survive the mutation of its shape
+                        self.propagate_ops(s2)
+                        for sh in self.all_shapes(s2):
+                            self.ws_equations(sh, s2, s2.eqs, [], None)
                         # the pointee is replaced: every alias of the old shape now sees the new content
                         old[1].kind, old[1].f, old[1].assumed = v[1].kind, v[1].f, v[1].assumed
                         if v[1].kind is None:
